@@ -1,5 +1,8 @@
 """One Spec per property: which driver profile generates the runs, which oracles are judged."""
+from . import comm as commod
 from . import drive_engine, drive_tree
+from . import feed as feedmod
+from . import rng
 from .runner import Spec
 
 SPECS = {}
@@ -189,3 +192,310 @@ class C10(TreeSpec):
                 res["viol"].append({"check": "C10.ill_not_raised", "detail": "Backtest accepted duplicate column names", "flags": {"ill": "dup_cols"}})
             res["fired"]["ill_dup_columns"] = res["fired"].get("ill_dup_columns", 0) + 1
         return res
+
+
+# ============================================================================================
+# twin-run checks (no reference model: two executions of the same code are compared bit for bit)
+# ============================================================================================
+import copy as _copy
+import math as _math
+import random as _random
+
+
+def _corrupt_future(plan, cut, kind, seed):
+    """every supplied value dated after feed row `cut` is perturbed; the index (the calendar) is unchanged"""
+    r = _random.Random(seed)
+    p = _copy.deepcopy(plan)
+    f = p["feed"]
+    n = len(f["dates"])
+
+    def pert(x, k):
+        if k == "scale":
+            return None if x is None else round(x * r.uniform(0.3, 3.0), 6)
+        if k == "redraw":
+            return round(_math.exp(r.uniform(0, 6)), 4)
+        if k == "nan":
+            return None
+        if k == "zero":
+            return 0.0
+        return x
+
+    for key in ("prices", "bidoffer", "coupons", "cost_long", "cost_short"):
+        m = f.get(key)
+        if m is None:
+            continue
+        for i in range(cut + 1, n):
+            for j in range(len(m[i])):
+                kk = kind if key == "prices" else ("scale" if kind in ("nan", "zero") else kind)
+                if kind == "mixed":
+                    kk = r.choice(["scale", "redraw", "nan", "zero"]) if key == "prices" else "scale"
+                m[i][j] = pert(m[i][j], kk)
+    cutdate = f["dates"][cut]
+    for _name, fr in (p.get("extra") or {}).items():
+        if fr["kind"] not in ("frame", "series"):
+            continue
+        rows = fr.get("rows") or f["dates"]
+        for i, d in enumerate(rows):
+            if d > cutdate:
+                if fr["kind"] == "series":
+                    fr["data"][i] = pert(fr["data"][i], "scale")
+                elif fr.get("dtype") == "bool":
+                    fr["data"][i] = [not x for x in fr["data"][i]]
+                else:
+                    fr["data"][i] = [pert(x, "scale" if kind in ("nan", "zero") else ("scale" if kind == "mixed" else kind)) if x is not None else (0.3 if r.random() < 0.3 else None) for x in fr["data"][i]]
+    return p
+
+
+def _last_complete(sim, exc):
+    """timestamp up to which a run's rows are final: the whole index if it completed, else the date before the failure"""
+    if exc is None:
+        return sim.dates[-1]
+    now = sim.root.now
+    if now == 0:
+        return None
+    i = sim.dates.index(now)
+    return sim.dates[i - 1] if i >= 1 else None
+
+
+@register
+class C04(Spec):
+    id = "C04"
+    tiers = {"quick": dict(runs=900, builds=("py",), wall=80), "thorough": dict(runs=30000, builds=("py", "cy"), wall=1500)}
+    rule = (
+        "seeded strategy assembled from every stock scheduling / selection / statistic / weighting / rebalancing algo (nested trees, bid/offer, signal / target-weight / stat frames) is run by the real Backtest; "
+        "fault future_corruption: for 2 seeded cut dates every supplied value dated after the cut is scaled / re-drawn / set NaN / zero (index unchanged) and the run repeated; all node histories and transactions up to the cut must be byte-identical; "
+        "evaluations = twin pairs; distinct = distinct (plan, cut) digests; non-trivial = the base run holds a position at or before the cut"
+    )
+    assumptions = [
+        "the calendar (date index) is not data: 'last date' logic may depend on it",
+        "a node that only one run creates lazily after the cut counts as flat zero rows in the other",
+        "global PRNGs are re-seeded identically before each twin",
+    ]
+
+    def gen(self, r, tier, i):
+        plan = drive_engine.gen_all_algos_plan(r, tier, stateful=True)
+        n = len(plan["feed"]["dates"])
+        plan["cuts"] = [[r.randint(0, n - 2), r.choice(["scale", "redraw", "nan", "zero", "mixed"]), r.randrange(1 << 30)] for _ in range(2)]
+        plan["seed"] = r.randrange(1 << 30)
+        return plan
+
+    def run(self, bt, plan):
+        import pandas as pd
+
+        viol = []
+        fired = {}
+        info = {}
+        nontriv = set()
+        base, bexc = drive_engine.run_light(bt, plan, seed=plan["seed"])
+        if base.root is None:
+            return dict(viol=[], fired={}, nontrivial=False, info={"setup_failed": 1})
+        blast = _last_complete(base, bexc)
+        info["base_raised" if bexc is not None else "base_completed"] = 1
+        n_eval = 0
+        for cut, kind, cseed in plan["cuts"]:
+            cp = _corrupt_future(plan, cut, kind, cseed)
+            tw, texc = drive_engine.run_light(bt, cp, seed=plan["seed"])
+            fired["future_corruption_" + kind] = fired.get("future_corruption_" + kind, 0) + 1
+            n_eval += 1
+            cutdate = pd.Timestamp(plan["feed"]["dates"][cut])
+            if tw.root is None:
+                viol.append({"check": "lookahead_exception", "detail": "corrupting data after %s made construction fail: %r" % (cutdate, texc), "flags": {"kind": kind}})
+                continue
+            tlast = _last_complete(tw, texc)
+            lim = cutdate
+            for x in (blast, tlast):
+                if x is None:
+                    lim = None
+                elif lim is not None and x < lim:
+                    lim = x
+            # an exception on a date <= cut must occur in both runs on the same date
+            bfail = base.root.now if bexc is not None else None
+            tfail = tw.root.now if texc is not None else None
+            if (bfail is not None and bfail <= cutdate) != (tfail is not None and tfail <= cutdate) or (bfail is not None and bfail <= cutdate and bfail != tfail):
+                viol.append({"check": "lookahead_exception", "detail": "with data after %s corrupted (%s) the run fails at %s (%r) instead of %s (%r)" % (cutdate, kind, tfail, str(texc)[:80], bfail, str(bexc)[:80]), "flags": {"kind": kind}})
+                continue
+            if lim is None:
+                continue
+            ha = drive_engine.histories(base.root, lim)
+            hb = drive_engine.histories(tw.root, lim)
+            d = drive_engine.diff_histories(ha, hb)
+            if d is not None:
+                viol.append({"check": "lookahead", "detail": "data after %s corrupted (%s): history up to %s differs: %s" % (cutdate, kind, lim, d), "flags": {"kind": kind}})
+                continue
+            held = any(("position" in cols and (cols["position"] != 0).any()) for cols in ha.values())
+            if held:
+                nontriv.add((cut, kind))
+        stacks = []
+        for _p, s in drive_engine.trees.strategies(plan["tree"]):
+            stacks += [a["a"] if a["a"] != "run_always" else a["algo"]["a"] for a in s.get("algos", [])]
+        for a in set(stacks):
+            info["algo_" + a] = 1
+        info["twin_pairs"] = n_eval
+        return dict(viol=viol, fired=fired, nontrivial=bool(nontriv), info=info, dates=len(base.dates) * (1 + n_eval), steps=n_eval)
+
+    def owns(self, check):
+        return check.startswith("lookahead")
+
+    def simplifications(self, plan):
+        out = drive_engine.simplifications(plan)
+        if len(plan.get("cuts", [])) > 1:
+            for c in plan["cuts"]:
+                out.insert(0, dict(plan, cuts=[c]))
+        return [p for p in out if all(c[0] < len(p["feed"]["dates"]) - 1 for c in p.get("cuts", []))]
+
+
+def _nondeterministic(stack):
+    return any(a.get("a") in ("SelectRandomly", "WeighRandomly") for a in stack)
+
+
+@register
+class C09(Spec):
+    id = "C09"
+    tiers = {"quick": dict(runs=1500, builds=("py",), wall=80), "thorough": dict(runs=40000, builds=("py", "cy"), wall=1500)}
+    rule = (
+        "seeded calendar-gated deterministic child definition is backtested (i) stand-alone with default settings and (ii) nested under a seeded parent whose allocation schedule is the fault axis "
+        "(never funded, late funding, tiny funding, withdrawals, weight flips, parent flows, chaos algos); child.prices (nested) must equal strategy.prices (stand-alone) byte for byte on every date, and the column the parent "
+        "sees in universe[child] must carry that series; distinct = plan digest; non-trivial = the stand-alone child traded and its index left 100"
+    )
+    assumptions = ["child stacks are gated by a calendar scheduler (the paper copy's stack also runs on the synthetic pre-start row) and contain no random algos", "same data, integer mode and commission function in both runs; stand-alone initial capital is the default"]
+
+    def gen(self, r, tier, i):
+        big = tier == "thorough"
+        ndates = r.randint(5, 30 if big else 20)
+        ntick = r.randint(2, 4)
+        risk = r.random() < 0.15
+        style = "bday" if risk else None
+        if risk:
+            ndates = max(ndates, 18)
+        fspec, fired = drive_engine.gen_feed(r, ndates, ntick, style=style, faults={"late_listing": 0.15})
+        dates, tickers = fspec["dates"], fspec["tickers"]
+        for _ in range(20):
+            cst = drive_engine.gen_stack(r, fspec, risk=risk, chaos=False, gated=True)
+            if not _nondeterministic(cst):
+                break
+        else:
+            cst = [drive_engine.sched_spec(r, dates), {"a": "SelectAll"}, {"a": "WeighEqually"}, {"a": "Rebalance"}]
+        child = {"k": "S", "name": "kid", "cls": "Strategy", "fi": False, "how": "list", "children": [], "algos": cst}
+        if r.random() < 0.4:
+            names = r.sample(tickers, r.randint(1, len(tickers)))
+            child["children"] = [{"k": "X", "name": t, "cls": "Security", "mult": 1.0, "decl": r.choice(["str", "obj"])} for t in names]
+            drive_engine._restrict(child, names)
+        root = {"k": "S", "name": "parent", "cls": "Strategy", "fi": False, "how": r.choice(["list", "dict"]), "children": [child]}
+        others = []
+        if r.random() < 0.4:
+            sib = {"k": "S", "name": "sib", "cls": "Strategy", "fi": False, "how": "list", "children": [], "algos": [drive_engine.sched_spec(r, dates), {"a": "SelectAll"}, {"a": "WeighEqually"}, {"a": "Rebalance"}]}
+            root["children"].append(sib)
+            others.append("sib")
+        full = [t for j, t in enumerate(tickers) if all(row[j] is not None and row[j] > 0 for row in fspec["prices"])]
+        if r.random() < 0.4 and full:
+            # the parent's own direct holdings are fully listed tickers (a parent trading at a missing price is a different, legitimate failure)
+            t = r.choice(full)
+            root["children"].append({"k": "X", "name": t, "cls": "Security", "mult": 1.0, "decl": "obj"})
+            others.append(t)
+        mode = r.choice(["never", "late", "tiny", "steady", "flip", "withdraw"])
+        names = ["kid"] + others
+        extra = {}
+        st = [{"a": "Spy", "id": 0}]
+        if mode == "never":
+            st += [drive_engine.sched_spec(r, dates), {"a": "WeighSpecified", "weights": {n: (0.0 if n == "kid" else round(0.9 / max(1, len(others)), 4)) for n in names}}, {"a": "Rebalance"}]
+        elif mode == "late":
+            st += [{"a": "RunAfterDate", "date": dates[r.randrange(len(dates))]}, {"a": "WeighSpecified", "weights": {n: round(0.95 / len(names), 4) for n in names}}, {"a": "Rebalance"}]
+        elif mode == "tiny":
+            st += [drive_engine.sched_spec(r, dates), {"a": "WeighSpecified", "weights": {"kid": r.choice([1e-6, 1e-4, 0.001])}}, {"a": "Rebalance"}]
+        elif mode == "steady":
+            st += [drive_engine.sched_spec(r, dates), {"a": "WeighSpecified", "weights": {n: round(r.choice([0.5, 0.95, 1.0]) / len(names), 4) for n in names}}, {"a": "Rebalance"}]
+        else:
+            rows = sorted(r.sample(dates, r.randint(2, len(dates))))
+            data = []
+            for k, _d in enumerate(rows):
+                if mode == "withdraw":
+                    wk = [0.8, 0.0, 0.3, 0.0][k % 4]
+                else:
+                    wk = r.choice([0.0, 0.1, 0.5, 0.9])
+                rest = (0.95 - wk) / max(1, len(others)) if others else 0.0
+                data.append([wk] + [round(max(rest, 0.0), 4) for _ in others])
+            extra["ptw"] = drive_engine._frame(names, data, rows=rows)
+            st += [{"a": "WeighTarget", "args": ["ptw"]}, {"a": "Rebalance"}]
+        if r.random() < 0.4:
+            st.insert(1, drive_engine.chaos_spec(r, ndates, flows=True, capital=1e6))
+        if r.random() < 0.2:
+            st.insert(1, {"a": "CapitalFlow", "args": [round(r.choice([1, -1]) * r.choice([0.01, 0.1]) * 1e6, 2)]})
+        root["algos"] = st
+        cfg = {"integer": r.random() < 0.5, "comm": commod.gen(r, feedmod.min_unit(fspec["prices"])) if r.random() < 0.6 else None, "capital": r.choice([1e4, 1e6, 5e7]), "fi": False, "obs_price": False, "obs_eod": False, "profile": "nested"}
+        return {"driver": "engine", "cfg": cfg, "tree": root, "feed": fspec, "extra": extra, "fired": fired, "mode": mode, "seed": r.randrange(1 << 30)}
+
+    def run(self, bt, plan):
+        import numpy as np
+
+        viol = []
+        fired = {"alloc_" + plan["mode"]: 1}
+        info = {}
+        child = [c for c in plan["tree"]["children"] if c["name"] == "kid"][0]
+        alone_plan = dict(plan, tree=dict(child), cfg=dict(plan["cfg"], capital=1000000.0, name="kid"), extra={})
+        alone, aexc = drive_engine.run_light(bt, alone_plan, seed=plan["seed"])
+        captured = []
+
+        def hook(spy, target, t):
+            if spy.spec["id"] == 0 and target.root is target and "kid" in target.universe.columns:
+                captured.append((t, target.universe["kid"].to_numpy(dtype=float, na_value=float("nan")).copy()))
+
+        from . import taps as _taps
+
+        _taps.install(bt)
+        sim = drive_engine.EngineSim(bt, plan, set())
+        sim.light = True
+        sim.spy_hook = hook
+        rng.pin_globals(plan["seed"])
+        nexc = None
+        try:
+            sim.setup()
+            sim.bkt.run()
+        except Exception as e:  # noqa
+            nexc = e
+        finally:
+            _taps.set_current(None)
+        if sim.root is None or alone.root is None:
+            return dict(viol=[], fired=fired, nontrivial=False, info={"setup_failed": 1})
+        a_last = _last_complete(alone, aexc)
+        n_last = _last_complete(sim, nexc)
+        if (aexc is None) != (nexc is None):
+            info["exception_one_side"] = 1
+        if nexc is not None and any(str(nexc).startswith(st) for st in drive_tree.SIZING_STEMS):
+            # the run died from the known sizing-search defect (C05/C10): blocked, not judged here
+            viol.append({"check": "C10.sizing_exception", "detail": str(nexc)[:100], "flags": {"stem": str(nexc)[:24]}})
+        elif isinstance(nexc, ZeroDivisionError) and "Could not update parent " in str(nexc):
+            # the parent itself sits on a zero base (drained by flows): legitimate, and not about the child
+            info["parent_zero_base"] = 1
+        elif aexc is None and nexc is not None:
+            viol.append({"check": "c09_nested_fails", "detail": "stand-alone run completes but the nested run raises at %s: %s: %s" % (sim.root.now, type(nexc).__name__, str(nexc)[:160]), "flags": {"exc": type(nexc).__name__}})
+        if a_last is None or n_last is None:
+            return dict(viol=viol, fired=fired, nontrivial=False, info=info)
+        lim = min(a_last, n_last)
+        pa = alone.root.prices.loc[:lim]
+        kid = sim.root.children["kid"]
+        pn = kid.prices.loc[:lim]
+        xa = pa.to_numpy(dtype=float)
+        xn = pn.to_numpy(dtype=float)
+        if len(xa) != len(xn) or xa.tobytes() != xn.tobytes():
+            bad = [i for i in range(min(len(xa), len(xn))) if xa[i] != xn[i]]
+            i = bad[0] if bad else min(len(xa), len(xn))
+            viol.append({"check": "c09_index", "detail": "funding mode %s: nested index[%s]=%r, stand-alone index=%r" % (plan["mode"], pa.index[min(i, len(pa) - 1)], xn[i] if i < len(xn) else None, xa[i] if i < len(xa) else None), "flags": {"mode": plan["mode"]}})
+        else:
+            for t, col in captured:
+                k = t + 2  # rows 0..t+1 (synthetic row + t+1 real dates) are dated <= now
+                if k > len(xa):
+                    continue
+                if col[:k].tobytes() != xa[:k].tobytes():
+                    bad = [i for i in range(k) if not (col[i] == xa[i] or (col[i] != col[i] and xa[i] != xa[i]))]
+                    if bad:
+                        viol.append({"check": "c09_universe", "detail": "on date #%d the parent sees universe['kid'][%d]=%r, the child's index is %r" % (t, bad[0], col[bad[0]], xa[bad[0]]), "flags": {}})
+                        break
+        nontriv = bool(len(xa) and (np.abs(xa - 100.0) > 1e-9).any())
+        info["universe_reads"] = len(captured)
+        return dict(viol=viol, fired=fired, nontrivial=nontriv, info=info, dates=len(sim.dates) * 2, steps=len(sim.spy_log))
+
+    def owns(self, check):
+        return check.startswith("c09_")
+
+    def simplifications(self, plan):
+        return drive_engine.simplifications(plan)
